@@ -67,7 +67,10 @@ func (ex *Exec) lockOp(c *callCtx, lock bool) Val {
 		ex.lockSites = append(ex.lockSites, p)
 	}
 	if lock {
-		// blocking acquire: afterwards we hold it (self-deadlock is excluded by an obligation)
+		// blocking acquire: Lock only returns once nobody — this goroutine included — holds the mutex, so on every path
+		// that continues past it the mutex was not held before (a self-deadlock never continues: partial correctness)
+		ex.assume(not(held))
+		ex.used["sync.Mutex.Lock returns only when the mutex was free (a self-deadlock is a non-terminating path, outside partial correctness)"] = true
 		ex.store(c.st, p, boolVal("true"))
 		ex.monitorEnter(c, p)
 	} else {
